@@ -272,6 +272,25 @@ CHECKS["C07"] = dict(
     technique="TLA+ model checking (TLC) incl. deadlock and liveness under fairness + state-graph replay into the real code under a deterministic scheduler with virtual time + TLC trace validation",
 )
 
+CHECKS["C10"] = dict(
+    category="model_checking",
+    text="Misuse.tla is the contract of an API session with arbitrary arguments: abstract state (open handle, sources / signals defined in the writer session "
+         "with their types and sample counts, content of the closed file) and, for every call with concrete arguments, whether it must be refused, must succeed, "
+         "or may do either. MisuseGen.tla turns it into the finite graph of all sessions over a call alphabet with ids 0 / undefined / 200 / 256 / 65535, wrong "
+         "types, duplicate and malformed definitions, extreme definition parameters, zero / negative / huge windows, lengths and increments, bad enum values, "
+         "missing / garbage / empty / truncated files, for the synchronous writer, the threaded writer, the reader and jls_copy. TLC dumps the graph (1551 states, "
+         "~128k (state, call) pairs); the pairs are executed on the library built with AddressSanitizer + UBSan by harness/misuse_drv.c (every caller buffer a heap "
+         "block of exactly the documented size; library allocations counted by link-time wraps; watchdog), following observed outcomes where the contract leaves "
+         "them open (quick: a 15k sample of the pairs, thorough: all), plus random sessions with arbitrary ids / windows / lengths / enum values / definition "
+         "parameters. MisuseTrace.tla judges every recorded call: invalid => error code, no crash / hang / sanitizer report, every close and every failed open "
+         "returns the library's heap to its level before the open.",
+    design_ref="DESIGN.md section 6 C10, section 12",
+    note="Trusted: TLC, ASan/UBSan (clang 14), the driver. Handles are used only while open and NULL data pointers are not passed (the property's 'valid pointers'). "
+         "Threaded-writer data calls are asynchronous: their return code for invalid ids is not judged. jls_rd_utc on a defined non-FSR signal may return an "
+         "empty result (documented in the code as fine). Raw API (jls_raw_*) is exercised only through reader / writer / copy.",
+    technique="TLA+ contract of API sessions; TLC state graph of all sessions over a misuse alphabet replayed into the sanitizer build; TLC trace validation of every call's outcome",
+)
+
 NOT_YET = {}
 
 
